@@ -269,7 +269,8 @@ AggTable(q, envs) ==
   IN IF qf[2] # <<>> /\ ~KeyItemsOk(q) THEN Out(<<>>, "err")       \* a key expression that is not in GROUP BY: reported at the first qualifying row
      ELSE IF qf[1] # "ok" THEN Out(<<>>, qf[1])
      ELSE LET keys == SortKeys(DistinctKeys([i \in 1..Len(qf[2]) |-> qf[2][i].key], <<>>), <<>>)
-          IN TableRows(q, qf[2], keys, <<>>)
+              t == TableRows(q, qf[2], keys, <<>>)
+          IN IF t.st = "ok" THEN t ELSE Out(<<>>, t.st)          \* a table that cannot be built is not shown at all
 
 -----------------------------------------------------------------------------
 \* JOIN: environments of the pairs (r, s) with equal non-NULL keys, by r then s; OUTER adds r x NULLs
